@@ -17,7 +17,25 @@ def c02(tier):
         Harness('VHarnessAmountChecked', 'cashu', ['cashu/zz_verif_cashu.go'], bounds='<= 4 outputs, amounts full 64 bit', must_reach=('ok', 'overflow')),
     ]
 
+MINT_FILES = ['mint/zz_verif_env.go', 'mint/zz_verif_swap.go', 'mint/storage/sqlite/zz_verif_db.go']
+MINT_MODELS = ('std', 'crypto', 'json', 'sql', 'mint')
+MINT_ASSUME = COMMON_ASSUME + [
+    'keysets of the harness mint hold the denominations {1, 2, 2^63} only (the 60-entry tables are cut; the arithmetic kernels are checked at full width separately)',
+    'input_fee_ppk < 2^32 per keyset',
+    'hash_to_curve summarised as an injective uninterpreted function that never returns the identity; NUT-10 secrets excluded here (C12/C13)',
+    'database/sql + SQLite modelled relationally (DESIGN.md 4.3); pre-state rows are arbitrary up to the stated count, written by this version (no NULL cells), y = Y(secret)',
+]
+def mint_h(name, bounds, **kw):
+    kw.setdefault('summaries', ('h2c', 'nut10-none'))
+    kw.setdefault('crypto_mode', 'euf')
+    return Harness(name, 'mint', MINT_FILES, models=MINT_MODELS, bounds=bounds, **kw)
+
+def c01(tier):
+    return [mint_h('VHarnessSwapC01', 'swap: <= 2 inputs, <= 1 output, every field free; 2 proofs + 1 pending + 1 blind_signatures arbitrary rows',
+                   must_reach=('swap-accepted', 'swap-rejected'))]
+
 PROPS = {
+    'C01': dict(harnesses=c01, level='bounded symbolic verification: one-step inductive check from an arbitrary database state', assumptions=MINT_ASSUME, outside=[]),
     'C14': dict(harnesses=c14, level='bounded symbolic verification of DecodeToken/accessors (panic obligations) and of the V3/V4 round trip over the structural JSON/CBOR model',
                 assumptions=COMMON_ASSUME, outside=['fidelity of encoding/json and fxamacker/cbor themselves']),
     'C02': dict(harnesses=c02, level='bounded symbolic verification', assumptions=COMMON_ASSUME, outside=[]),
